@@ -299,6 +299,7 @@ struct OpGen {
   bool large;
   bool bools;
   unsigned bvw = 0;
+  bool partition = false;
   OpGen(Rng &rr, int n, bool lg, bool bl) : r(rr), nregs(n), large(lg), bools(bl) {}
   std::string iv() { return "v" + std::to_string(r.below(N_INT)); }
   std::string bv() { return "p" + std::to_string(r.below(N_BOOL)); }
@@ -376,6 +377,14 @@ struct OpGen {
   }
   Json gen(bool lattice_ops, bool benign, bool alias) {
     for (;;) {
+      if (partition && r.chance(1, 8)) {
+        // value-partitioning directive: no concrete effect
+        Json j = op("partition");
+        j.set("r", reg());
+        j.set("x", iv());
+        j.set("end", r.chance(1, 4));
+        return j;
+      }
       if (r.chance(1, 14)) {
         Json j = op("spread");
         j.set("r", reg());
@@ -1180,6 +1189,12 @@ struct Interp {
       }
       return true;
     }
+    if (o == "partition") {
+      Reg &rg = R("r");
+      rg.val->intrinsic(op.at("end").as_bool() ? "value_partition_end" : "value_partition_start",
+                        {cx.v(op.at("x").as_str())});
+      return check_reg(RI("r"), "partition");
+    }
     if (o == "benign") {
       int ri = RI("r");
       Reg &rg = regs[ri];
@@ -1346,6 +1361,7 @@ Case gen_hist(const std::string &prop, Rng &r, const Tier &t, const std::vector<
   bool large = !(di->caps & CAP_INT64) && r.chance(1, 5);
   bool bools = (di->caps & CAP_BOOL) ? true : r.chance(1, 6);
   OpGen g(r, nregs, large, bools);
+  g.partition = (di->caps & CAP_PARTITION) != 0;
   if (di->caps & CAP_BV) {
     static const unsigned ws[] = {4, 8, 8, 8, 16, 32, 32, 64};
     g.bvw = ws[r.below(8)];
